@@ -2,6 +2,7 @@ package main
 
 import (
 	"fmt"
+	"sort"
 	"strings"
 
 	"github.com/openconfig/goyang/pkg/yang"
@@ -74,6 +75,72 @@ func init() {
 		})
 		if len(res) != 1 {
 			return fmt.Errorf("%d different error lists over 80 runs", len(res))
+		}
+		return nil
+	})
+}
+
+func init() {
+	reg("identity-two-revisions-order", "C05: with two revisions of a module loaded, which one's identity a base resolves to does not depend on map order", func() error {
+		b19 := "module base { namespace \"urn:base\"; prefix b; revision 2019-01-01; identity root; }"
+		b20 := "module base { namespace \"urn:base\"; prefix b; revision 2020-01-01; identity root; }"
+		user := "module user { namespace \"urn:user\"; prefix u; import base { prefix b; } identity child { base b:root; } leaf x { type identityref { base b:root; } } }"
+		seen := map[string]bool{}
+		for i := 0; i < 60; i++ {
+			ms := yang.NewModules()
+			ms.Parse(b19, "base@2019-01-01.yang")
+			ms.Parse(b20, "base@2020-01-01.yang")
+			ms.Parse(user, "user.yang")
+			if errs := ms.Process(); len(errs) > 0 {
+				return fmt.Errorf("process: %v", errs)
+			}
+			x := yang.ToEntry(ms.Modules["user"]).Dir["x"]
+			if x == nil || x.Type == nil || x.Type.IdentityBase == nil {
+				return fmt.Errorf("no identity base on leaf x")
+			}
+			seen[yang.Source(x.Type.IdentityBase)] = true
+		}
+		if len(seen) > 1 {
+			var l []string
+			for k := range seen {
+				l = append(l, k)
+			}
+			sort.Strings(l)
+			return fmt.Errorf("over 60 fresh runs the base of leaf x was the identity at %v", l)
+		}
+		return nil
+	})
+}
+
+func init() {
+	reg("submodule-two-revisions-order", "C05: with two revisions of a module that include the same submodule, the newest revision's tree does not depend on map order", func() error {
+		m19 := "module m { namespace \"urn:m\"; prefix m; include sub; revision 2019-01-01; leaf a { type string; } }"
+		m20 := "module m { namespace \"urn:m\"; prefix m; include sub; revision 2020-01-01; leaf a { type string; } }"
+		sub := "submodule sub { belongs-to m { prefix m; } leaf s { type string; } }"
+		seen := map[string]bool{}
+		for i := 0; i < 60; i++ {
+			ms := yang.NewModules()
+			ms.Parse(m19, "m@2019-01-01.yang")
+			ms.Parse(m20, "m@2020-01-01.yang")
+			ms.Parse(sub, "sub.yang")
+			if errs := ms.Process(); len(errs) > 0 {
+				return fmt.Errorf("process: %v", errs)
+			}
+			e := yang.ToEntry(ms.Modules["m"])
+			var names []string
+			for k := range e.Dir {
+				names = append(names, k)
+			}
+			sort.Strings(names)
+			seen[strings.Join(names, ",")] = true
+		}
+		if len(seen) > 1 {
+			var l []string
+			for k := range seen {
+				l = append(l, "{"+k+"}")
+			}
+			sort.Strings(l)
+			return fmt.Errorf("over 60 fresh runs the children of module m (newest revision) were %v", l)
 		}
 		return nil
 	})
